@@ -517,10 +517,31 @@ func genLoopPlan(r *zsim.Rng) *loopPlan {
 		p.Partitions = 1 + r.Intn(3)
 	}
 	pool := queryPool(r, p.Match.Extended, 2+r.Intn(2))
+	cacheStress := r.Chance(1, 5)
+	if cacheStress {
+		// few full chunks, each alone in its partition, the same selective queries again and again with the
+		// sort flag flipping in between: whatever a scan leaves in the chunk cache is read back by the next
+		p.Lines.N = 100*r.Range(1, 8) + r.Intn(60)
+		p.Partitions = r.Range(8, 32)
+		p.Tail = 0
+		p.Loaders = 1
+		p.Bursts = []int{1000}
+		p.GapsMs = []int{0}
+		pool = pool[:2]
+		for i := range pool {
+			for len([]rune(pool[i])) < 3 {
+				pool[i] += string(lineAlphabet[r.Intn(len(lineAlphabet))])
+			}
+		}
+	}
 	nops := r.Range(2, 25)
 	for i := 0; i < nops; i++ {
 		op := loopOp{Query: pool[r.Intn(len(pool))], Cancel: r.Chance(1, 2), Toggle: r.Chance(1, 10)}
 		op.GapMs = []int{0, 0, 0, 1, 3, 10, 40, 120, 500}[r.Intn(9)]
+		if cacheStress {
+			op.Toggle = r.Chance(1, 3)
+			op.GapMs = []int{40, 120, 500}[r.Intn(3)]
+		}
 		p.Ops = append(p.Ops, op)
 	}
 	return p
